@@ -2,6 +2,7 @@
 from __future__ import annotations
 
 import ast
+import re
 import re._constants as sc
 
 from .. import astq, rx
@@ -152,6 +153,23 @@ def run(ctx):
             if astq.call_text(c) in ("re.match", "re.search", "re.fullmatch", "re.sub", "re.split", "re.compile") and c.args and isinstance(c.args[0], ast.Constant):
                 issues = rx.redos(rx.parse(c.args[0].value))
                 ctx.ob(R6, fi.qual, f"inline pattern {c.args[0].value!r}", not issues, str(issues[:3]), node=c)
+
+    # ------------------------------------------------------------------ R8 what counts as a valid percent-escape
+    R8 = ctx.rule("C14-R8", "a percent-escape that the patterns of util/url.py accept (and the encoder therefore keeps) is '%' followed by two ASCII hex digits: every counted class repeat directly after a literal '%' is exactly [0-9A-Fa-f]{2} (in a str pattern `\\d` also matches non-ASCII decimal digits)", "E7")
+    HEX = set("0123456789abcdefABCDEF")
+    n8 = 0
+    for mod, name, r in pats:
+        if isinstance(r.pattern, bytes):
+            continue
+        ascii_only = bool(r.flags & re.ASCII)
+        for lo, hi, items in rx.percent_escapes(rx.parse(r.pattern, r.flags)):
+            n8 += 1
+            cs = rx.class_set(items, ignorecase=bool(r.flags & re.IGNORECASE), ascii_only=ascii_only)
+            ok = cs == HEX and lo == 2 and hi == 2
+            extra = sorted(cs - HEX)
+            ctx.ob(R8, mod, f"{name}: '%' is followed by exactly two ASCII hex digits", ok,
+                   "" if ok else f"the escape class {'also admits ' + repr(extra[:6]) if extra else 'misses ' + repr(sorted(HEX - cs)[:6])} (repeat {lo}..{hi}): an invalid escape is kept as valid, so the result is not in normal form and does not re-parse to itself")
+    ctx.sites(R8, n8, 3, "percent-escape sub-patterns in util/url.py")
 
     # ------------------------------------------------------------------ R7 no quadratic loop idiom
     R7 = ctx.rule("C14-R7", "no quadratic idiom inside loops over the input in util/url.py: no str accumulation by +, no insert(0)/pop(0), no membership/index/count on a list grown in the loop", "E8")
